@@ -126,7 +126,7 @@ def run(F, S, R, tier):
                 R.ok("sibling/scan/filter", "a hash counts as unverified iff get_block_ext(hash) is None, as a filter (it never ends the scan)", [ext_cl[0].where()])
             else:
                 R.bad("sibling/scan/filter", "the missing-ext test is used by `%s`, not as a plain filter: an already processed sibling would end the scan of its height" % a_ext, [ext_cl[0].where()])
-            if a_pre == "take_while" and not pre_cl[0].calls_to(r"ChainStore::get_block_ext$") and K.src_match(pre_cl[0].operand_sources(pre_cl[0].calls_to(r"starts_with$")[0].args[1]), [r"upvar:prefix"]):
+            if a_pre == "take_while" and not pre_cl[0].calls_to(r"ChainStore::get_block_ext$") and K.src_match(pre_cl[0].operand_sources(pre_cl[0].calls_to(r"starts_with$")[0].args[1]), [r"vty:&\[u8\]$"]):
                 R.ok("sibling/scan/height-end", "a height ends exactly where the NUMBER_HASH key stops having the height's prefix", [pre_cl[0].where()])
             else:
                 R.bad("sibling/scan/height-end", "the scan of a height is not ended by the key prefix alone (adaptor %s)" % a_pre, [pre_cl[0].where()])
